@@ -39,7 +39,11 @@ CHARS1 = [0x61, 0x7a, 0x30, 0x20, 0x7f, 0x00, 0x41]
 CHARS2 = [0xe9, 0x80, 0x7ff, 0x3b1, 0xbf, 0x440]
 CHARS3 = [0x800, 0x20ac, 0xffff, 0x4e2d, 0xd7ff, 0xe000, 0x303f]
 CHARS4 = [0x10000, 0x1f600, 0x10ffff, 0x1f9ff]
-ALLCH = CHARS1 * 4 + CHARS2 * 2 + CHARS3 * 2 + CHARS4
+# characters whose FINAL byte takes every value of the low six bits that an inline length tag can take (0..=16), in every
+# width (a full 16-byte inline text ends in such a byte where shorter ones keep their length tag), line feed, the byte
+# order mark, and characters ending in 0x80
+WILD = [0x0a] + list(range(0x40, 0x51)) + list(range(0xc0, 0xd1)) + [0xfeff, 0x2000, 0x100, 0x4e00, 0x1f3ff, 0x10000 + 0x40, 0x10fffd]
+ALLCH = CHARS1 * 4 + CHARS2 * 2 + CHARS3 * 2 + CHARS4 + WILD
 
 LENS = [0, 1, 2, 7, 8, 9, 14, 15, 16, 16, 16, 17, 18, 23, 24, 25, 31, 32, 33, 40, 64]
 
